@@ -363,14 +363,31 @@ def side_lemmas(run: Run, g: gs.Grammar, cls, lark_obj):
         except sre2z3.Unsupported:
             bad.append(t.name + "?")
     ign_ok = False
+    ws_problem = None
     try:
         ign = [t for t in lark_obj.terminals if t.name in g.ignore]
         if len(ign) == 1:
-            v, _, _ = sre2z3.re_equal(sre2z3.lark_terminal_re(ign[0]), sre2z3.to_z3("[ \t\x0c\r\n]+"))
+            v, wit, _ = sre2z3.re_equal(sre2z3.lark_terminal_re(ign[0]), sre2z3.to_z3("[ \t\x0c\r\n]+"))
             ign_ok = v == "equal"
+            if v == "differ":
+                ws_problem = sre2z3.unescape_z3(wit)
     except sre2z3.Unsupported:
         pass
-    run.ob("whitespace cannot change the token sequence: %ignore is exactly WS=[ \\t\\f\\r\\n]+ and no other terminal matches a string containing whitespace", "z3-re", HELD if not bad and ign_ok else INCONCLUSIVE, detail=f"terminals that can contain whitespace: {bad}; ignore ok: {ign_ok}")
+    # whatever the terminal lemma says, the documented whitespace characters are pushed through the real parser between all tokens
+    from vf import env
+
+    for wch, wname in ((" ", "blank"), ("\t", "tab"), ("\n", "LF"), ("\r\n", "CRLF"), ("\r", "CR"), ("\x0c", "form feed")):
+        text = f"[1]{wch}U{wch}({wch}[2]{wch}O{wch}[{wch}3{wch}]{wch}){wch}[901]"
+        run.counters["replayed_witnesses"] += 1
+        try:
+            agree, real, ref = real_vs_ref(text)
+            problem = None if agree else f"parsed as {real}, documented precedence gives {ref}"
+        except Exception as e:  # pylint:disable=broad-except
+            problem = f"rejected with {type(e).__name__}"
+        if problem:
+            what = f"well-formed expression with {wname} between its tokens, {text!r}: {problem}"
+            run.violation("whitespace between tokens", what, {"part": "whitespace", "char": wname}, {"kind": "C01-text", "property": "C01", "text": text})
+    run.ob("whitespace cannot change the token sequence: %ignore is exactly WS=[ \\t\\f\\r\\n]+ and no other terminal matches a string containing whitespace; blank/tab/LF/CR/CRLF/FF between all tokens parse with the documented grouping", "z3-re+replay", (VIOLATED if any(v["name"] == "whitespace between tokens" for v in run.violations) else (HELD if not bad and ign_ok else INCONCLUSIVE)), detail=f"terminals that can contain whitespace: {bad}; ignore terminal equals WS: {ign_ok}{'' if ws_problem is None else f' (differs on {ws_problem!r})'}")
     # brackets vanish from the tree: ?brackets is expand1 and ( ) are filtered tokens
     br = [r for r in g.rules if any(s.is_term and cls[s.name][0] == "LPAR" for s in r.expansion)]
     ok = bool(br) and all(r.options.expand1 and not r.alias and all(getattr(s, "filter_out", False) for s in r.expansion if s.is_term) for r in br)
